@@ -9,6 +9,15 @@ from ..interp_prop import InterpProp
 
 class C18(InterpProp):
     id = 'C18'
+    # a relational property: the relation (twin / copy) is checked on the implementation by the oracle and
+    # proved for the model; a uniform change of behaviour is not this property's business
+    cmp_eff = ()
+    cmp_step = ()
+    cmp_slot = ()
+    cmp_callbacks = False
+    cmp_err = None
+    cmp_time = False
+    cmp_outcome = False
     quick_cases = 500
     thorough_cases = 15000
     n_ops = 24
